@@ -15,12 +15,58 @@ FUNCTIONS = [
     "rdflib.term.Literal._quote_encode", "rdflib.plugins.parsers.notation3.SinkParser.strconst",
     "rdflib.term._lang_tag_regex", "rdflib.plugins.parsers.notation3.langcode", "rdflib.plugins.sparql.parser.LANGTAG (live pyparsing Regex)",
     "rdflib.term._is_valid_uri / _invalid_uri_chars", "rdflib.term._unique_id", "rdflib.plugins.parsers.ntriples.r_nodeid",
-    "rdflib.term._ORDERING", "rdflib.plugins.sparql.evalutils._val",
+    "rdflib.term._ORDERING", "rdflib.plugins.sparql.evalutils._val", "rdflib.term.Literal.__eq__ / __ne__",
 ]
 STUBS = c05.STUBS[:1] + ["Literal._quote_encode is called unbound on a symbolic str receiver"]
-ASSUMPTIONS = ["NOT covered: equality as an equivalence relation, hash/eq coherence, literal value ordering, pickling/copying, from_n3 "
-               "(ends in C codecs): term contents cannot be symbolic"]
+ASSUMPTIONS = ["NOT covered: equality / hash laws over lexical *contents*, hash/eq coherence, literal value ordering, pickling/copying, "
+               "from_n3 (ends in C codecs): term contents cannot be symbolic. Covered of the equality laws: Literal.__eq__ over symbolic "
+               "language tags (length <= 1 and <= 2; thorough both <= 2; over aAb) and symbolic datatype identities with concrete lexical forms"]
 BODIES = dict(kern.BODIES)
+
+
+def k_literal_eq(desc, F, la, lb, da, db):
+    """Literal.__eq__ on literals whose language tag is a symbolic string and whose datatype is a symbolic identity (or absent):
+    equality is reflexive, symmetric and transitive, distinguishes by datatype and by the language tag case-insensitively.
+    The lexical forms are concrete (same / different by shape): str content cannot be symbolic."""
+    from rdflib.term import Literal
+    for t in (la, lb):
+        for ch in t:
+            if ch not in "aAb":
+                return None
+    lc = lb  # the third literal of the transitivity check shares y's tag spelling but x's lexical form
+
+    def mk(lex, lang, dt):
+        inst = str.__new__(Literal, lex)
+        inst._value = None
+        inst._language = lang if lang else None
+        inst._datatype = F.iri(dt) if (dt != 0 and not lang) else None
+        inst._ill_typed = None
+        return inst
+
+    x = mk("v", la, da)
+    y = mk("v" if desc["same_lex"] else "w", lb, db)
+    z = mk("v", lc, da)
+    if not Literal.__eq__(x, x):
+        return "a literal is not equal to itself"
+    exy, eyx = Literal.__eq__(x, y), Literal.__eq__(y, x)
+    if bool(exy) != bool(eyx):
+        return "literal equality is not symmetric"
+    want = desc["same_lex"] and (la.lower() == lb.lower()) and ((da == db) or bool(la) or (da == 0 and db == 0))
+    if bool(la) != bool(lb):
+        want = False
+    if (not la) and (not lb) and not ((da == db) or (da == 0 and db == 0)):
+        want = False
+    if bool(exy) != bool(want):
+        return "literal equality disagrees with (lexical form, datatype, lower-cased language tag)"
+    if bool(Literal.__ne__(x, y)) == bool(exy):
+        return "!= is not the negation of =="
+    # transitivity through z (same lexical form and datatype as x, its own language tag)
+    if exy and Literal.__eq__(y, z) and not Literal.__eq__(x, z):
+        return "literal equality is not transitive"
+    return None
+
+
+BODIES["k-literal-eq"] = k_literal_eq
 
 
 def r_obligations():
@@ -136,6 +182,11 @@ def obligations(tier, seed):
         m = n if tail == "" else n - 1
         obs.append(dict(oid="K/literal-n3-text/len<=%d/tail=%r" % (m, tail), family="k-ttl-roundtrip", desc={"tail": tail},
                         sig=[("s", "s")], pre=["len(s) <= %d" % m], budget=big))
+    for same in (True, False):
+        obs.append(dict(oid="K/literal-eq/%s" % ("same-lexical" if same else "different-lexical"), family="k-literal-eq", desc={"same_lex": same},
+                        sig=[("la", "s"), ("lb", "s"), ("da", "i"), ("db", "i")],
+                        pre=["len(la) <= %d" % (1 if tier == "quick" else 2), "len(lb) <= %d" % (2 if tier == "quick" else 2)],
+                        budget=600 if tier == "quick" else 3000))
     obs.append(dict(oid="K/literal-n3-text-long/len<=%d" % (n - 1), family="k-ttl-roundtrip-long", desc={"tail": "@en"}, sig=[("s", "s")],
                     pre=["len(s) <= %d" % (n - 1)], budget=big))
     return obs
@@ -148,6 +199,8 @@ def bounds(tier):
                                "validity gate within the N-Triples token patterns" % len(r_obligations()),
             "k-ttl-roundtrip": "Literal._quote_encode -> SinkParser.strconst for every lexical form of length <= %d, bare and followed by "
                                "@lang / ^^<iri>; long-quoting branch for newline + length <= %d" % (n, n - 1),
+            "k-literal-eq": "Literal.__eq__/__ne__: reflexive, symmetric, transitive, = (lexical, datatype, lower-cased language) for symbolic "
+                            "language tags of length <= 2 and symbolic datatype identities; lexical forms concrete",
             "shape-symbolic": "the finite kind-ordering tables (_ORDERING, _val) — enumeration, not a solver claim",
             "outside": "equality/hash/ordering/pickling laws over term contents, from_n3, Variable/QuotedGraph text forms"}
 
